@@ -226,3 +226,8 @@ func replayParser(raw json.RawMessage) (string, error) {
 
 // parserJudges maps a check name to the function judging a single case (verbose prints details).
 var parserJudges = map[string]func(pc *parserCase, verbose bool) []string{}
+
+func jsonMarshal(v any) (json.RawMessage, error) {
+	b, err := json.Marshal(v)
+	return json.RawMessage(b), err
+}
